@@ -264,7 +264,7 @@ func c50(c *Ctx) {
 	} else {
 		c.Undecided("constant", "idna.acePrefix", "not found")
 	}
-	c.Check(strings.HasSuffix(Term(dec.(*ssa.Call).Call.Args[0]), "[4:]"), "decode-arg", proc+": decode receives the label without its 4-byte prefix", InstrPos(dec), "", "argument is "+Term(dec.(*ssa.Call).Call.Args[0]))
+	c.Check(strings.HasSuffix(Term(BaselineArgs(&dec.(*ssa.Call).Call)[0]), "[4:]"), "decode-arg", proc+": decode receives the label without its 4-byte prefix", InstrPos(dec), "", "argument is "+Term(BaselineArgs(&dec.(*ssa.Call).Call)[0]))
 	set := Calls("(*idna.labelIter).set").ArgIs(1, u)
 	// a failed decode keeps the old label: neither set(u) nor validateLabel(u) before the next label is decoded
 	c.NeverAfterUntil(proc, m1ErrBranchOf("idna.decode"), set, Calls("idna.decode"))
